@@ -60,6 +60,20 @@ for i, e in enumerate(T.EXTRACTORS):
         "variation": eds(ex.get("variation_editions", [])),
         "extra_keys": sorted(ex.keys()),
     })
+db = []
+for key, cluster in reporters_db.REPORTERS.items():
+    for src in cluster:
+        for ed in src["editions"]:
+            db.append([ed, "reporters", "edition"])
+        for var in src["variations"]:
+            db.append([var, "reporters", "variation"])
+for kind, table in (("laws", reporters_db.LAWS), ("journals", reporters_db.JOURNALS)):
+    for key, cluster in table.items():
+        for src in cluster:
+            db.append([key, kind, "edition"])
+            for var in src.get("variations", []):
+                db.append([var, kind, "variation"])
+out["db_strings"] = db
 default = T.default_tokenizer
 out["default_tokenizer_class"] = type(default).__name__
 json.dump(out, sys.stdout)
